@@ -291,7 +291,9 @@ func setupLive(cfg string) error {
 			break
 		}
 		if try == 3 {
-			return fmt.Errorf("initial canary call: %w (V log: %v; L log: %v)", err, env.V.Cap.Lines(), env.L.Cap.Lines())
+			sinfo, serr := env.V.ProcessInfo(ls.sinkPID)
+			return fmt.Errorf("initial canary call: %w (V log: %v; L log: %v; V nodes %v; L nodes %v; sink %v %v end=%v)", err, env.V.Cap.Lines(), env.L.Cap.Lines(),
+				env.V.Network().Nodes(), env.L.Network().Nodes(), sinfo.State, serr, ls.sinkEnd.Load())
 		}
 	}
 	canaryTimeout = 15
@@ -930,7 +932,21 @@ func childLive() {
 		cfg = spec.Cases[0].Opt
 	}
 	// the inputs are generated from recorded frames: the recording is logged so that a crash during setup is visible
-	if err := setupLive(cfg); err != nil {
+	err := setupLive(cfg)
+	for try := 0; err != nil && try < 2; try++ {
+		// a setup failure says nothing about the property; start over with fresh nodes
+		fmt.Fprintln(os.Stderr, "live setup failed, retrying:", err)
+		if env.V != nil && env.V.Node != nil {
+			env.V.Stop()
+		}
+		if env.L != nil && env.L.Node != nil {
+			env.L.Stop()
+		}
+		env = liveEnv{}
+		ls = &liveState{markers: make(chan string, 4096)}
+		err = setupLive(cfg)
+	}
+	if err != nil {
 		fmt.Fprintln(os.Stderr, "live setup failed:", err)
 		for ci := spec.ResumeCase; ci < len(spec.Cases); ci++ {
 			g := newAgg().rec(spec.Cases[ci].ID)
@@ -982,7 +998,7 @@ func liveJobs() []job {
 	var jobs []job
 	m := hk.Pick(1, 10)
 	wall := 12 * time.Minute
-	mem := uint64(512 << 10)
+	mem := uint64(1536 << 10)
 	// declared frame length 0..8: one child each (the suspicion is that the node process dies)
 	for l := 0; l <= 8; l++ {
 		if !hk.Thorough() && (l == 2 || l == 3 || l == 4 || l == 5) {
